@@ -222,6 +222,13 @@ def tamper_sigvalue(xml, occurrence=0):
     return xml[:m.start(1)] + val[:10] + c + val[11:] + xml[m.end(1):]
 
 
+def empty_sigvalue(xml, occurrence=0):
+    """a complete Signature whose n-th SignatureValue has no content"""
+    ms = list(re.finditer(r'<ds:SignatureValue>([^<]+)</ds:SignatureValue>', xml))
+    m = ms[occurrence]
+    return xml[:m.start(1)] + xml[m.end(1):]
+
+
 def b64(xml):
     return base64.b64encode(xml.encode('utf-8')).decode('ascii')
 
